@@ -33,6 +33,8 @@ Geoms      == [dsize : DescSizes, isize : InodeSizes, kind : Kinds, flex : {0, 1
 (***************************************************************************)
 (* 2. what a checksum depends on                                           *)
 (***************************************************************************)
+\* (The MMP block -- seeded like a bitmap -- is a shape too, but every read-write open of an MMP filesystem sleeps 2 * check
+\* interval + 1 s; it is observed on one dedicated image (mke2fs -O mmp, then tune2fs -f -U) instead of on every pre-state.)
 Shapes == {"sb", "gd", "bb", "ib", "inode", "extblk", "dirleaf_live", "dirleaf_empty", "dxroot", "dxnode", "xblk", "orphanblk", "jsb"}
 
 \* shapes that carry a checksum at all under a checksum kind (crc16 = uninit_bg protects the descriptors only)
